@@ -80,6 +80,22 @@ class Recorder:
             victim = next((c for c in arg.children if c is not node), None)
             if victim is not None:
                 victim.parent = None
+        elif (kind, label) in self.evict:
+            # a *_children hook that re-files the first listed child under another node of the universe ('archive it')
+            self.evict.discard((kind, label))
+            for child in arg:
+                if not hasattr(child, "parent"):
+                    continue
+                for other in self.universe:
+                    if other is node or other is child or other is child.parent:
+                        continue
+                    cur = other
+                    while cur is not None and cur is not child:
+                        cur = cur.parent
+                    if cur is None:  # child is not an ancestor of other: no loop
+                        child.parent = other
+                        break
+                break
 
 
 CURRENT = [None]  # process-local; replaced at the start of every case
@@ -726,7 +742,7 @@ def history_strategy(max_nodes=7, max_steps=30, faults="none", invalid=False, cl
             readonly = st.just({"persist": [[h, i] for i in range(n) for h in ("pre_detach", "pre_attach")]})
             plans = [st.just({}), st.just({}), once, once, persist, readonly]
             if faults == "all+evict":
-                plans.append(st.lists(st.tuples(st.sampled_from(["pre_detach", "post_detach", "pre_attach", "post_attach"]), idx).map(list), min_size=1, max_size=2).map(lambda ps: {"evict": ps}))
+                plans.append(st.lists(st.tuples(st.sampled_from(["pre_detach", "post_detach", "pre_attach", "post_attach", "pre_detach_children", "post_detach_children", "pre_attach_children", "post_attach_children"]), idx).map(list), min_size=1, max_size=2).map(lambda ps: {"evict": ps}))
             plan = st.one_of(*plans)
         steps = draw(st.lists(st.tuples(op, plan).map(lambda t: {"op": t[0], "plan": t[1]}), min_size=1, max_size=max_steps))
         case = {"cls": spec_, "n": n, "steps": steps}
@@ -843,7 +859,7 @@ def enum_fault_cases(cls, n, index, count, fault_hooks=(), pairs=False, persist=
                         yield dict(base, steps=[{"op": op, "plan": {"persist": [[kind, label]]}}])
             if evict:
                 for kind, label in seen:
-                    if kind in ("pre_detach", "post_detach", "pre_attach", "post_attach") and isinstance(label, int):
+                    if isinstance(label, int):
                         yield dict(base, steps=[{"op": op, "plan": {"evict": [[kind, label]]}}])
             if readonly:
                 yield dict(base, steps=[{"op": op, "plan": {"persist": [[h, i] for i in range(n) for h in ("pre_detach", "pre_attach")]}}])
